@@ -622,6 +622,45 @@ func vbRun(c vbCase, mk func(config.Config) Store, stName string, root string) m
 	return out
 }
 
+// vbEmptyRepo (C06, directory store): a repository that held blobs under every digest algorithm the store accepts and
+// is then emptied is removed by the collection when EmptyRepo is on (for each subset of the two algorithms).
+func vbEmptyRepo(t *testing.T) map[string]string {
+	out := map[string]string{}
+	for mask := 1; mask < 4; mask++ {
+		root := t.TempDir()
+		s := NewDir(vrConf(config.StoreDir, root, false, func(c *config.Config) { c.Storage.GC.GracePeriod = -1 }))
+		repo, err := s.RepoGet(context.Background(), "repo")
+		if err != nil {
+			continue
+		}
+		var algos []string
+		for i, a := range []digest.Algorithm{digest.SHA256, digest.SHA512} {
+			if mask&(1<<i) == 0 {
+				continue
+			}
+			algos = append(algos, a.String())
+			content := []byte("blob under " + a.String())
+			d := a.FromBytes(content)
+			if bc, _, err := repo.BlobCreate(BlobWithDigest(d)); err == nil {
+				_, _ = bc.Write(content)
+				_ = bc.Close()
+			}
+		}
+		repo.Done()
+		_ = repo.gc() // removes the unreferenced blobs (no grace period) and, the repository being empty, the repository
+		_ = repo.gc()
+		if _, err := os.Stat(filepath.Join(root, "repo")); err == nil {
+			left := []string{}
+			for k := range vrTree(filepath.Join(root, "repo")) {
+				left = append(left, k)
+			}
+			out["C06:empty-repo-not-removed"] = fmt.Sprintf("dir store, EmptyRepo on, no grace period: a repository that held blobs under %v and is empty after the collection is still there after two passes (left: %v)", algos, left)
+		}
+		_ = s.Close()
+	}
+	return out
+}
+
 func TestVerifBounded(t *testing.T) {
 	prop := os.Getenv("VERIF_PROPERTY")
 	stores := []string{"mem"}
@@ -663,6 +702,12 @@ func TestVerifBounded(t *testing.T) {
 					}
 				}
 			}
+		}
+	}
+	if prop == "C06" {
+		for id, msg := range vbEmptyRepo(t) {
+			count[id]++
+			first[id] = msg
 		}
 	}
 	for id, msg := range first {
